@@ -191,6 +191,12 @@ pub fn build_request(s: &ReqSpec) -> Request<Bytes> {
     for (k, v) in &s.headers {
         req = req.with_header(k.clone(), v.clone());
     }
+    // some requests are not freshly built: they carry what an *inbound* request carries that the
+    // application forwards to another peer as it is (the identity of whoever sent it to us and the
+    // direction it travelled). None of it may be mistaken for something about this call.
+    if s.body.len() % 4 == 1 {
+        req = req.with_extension(anemo::PeerId([0xEE; 32])).with_extension(anemo::Direction::Inbound);
+    }
     req.with_extension(LocalMarker(7))
 }
 
